@@ -14,6 +14,13 @@ class Signed(BitVector):
 
     @staticmethod
     @_intrinsic
+    def _wrap_int(value: int, width: int) -> int:
+        # two's complement wrap: the quotient min/-1 does not fit the result
+        # type and wraps like the emitted logic instead of raising
+        return (value + 2 ** (width - 1)) % 2**width - 2 ** (width - 1)
+
+    @staticmethod
+    @_intrinsic
     def _int_to_binary(width: int, number: int) -> str:
         return "".join([str(int(bool(number & 2**i))) for i in range(width)])[::-1]
 
@@ -288,7 +295,7 @@ class Signed(BitVector):
 
         if rhs == 0:
             return Signed[result_width]()
-        return Signed[result_width](int(lhs / rhs))
+        return Signed[result_width](Signed._wrap_int(int(lhs / rhs), result_width))
 
     @_intrinsic
     def _cohdl_rtruncdiv_(self, lhs: Signed) -> Signed:
@@ -305,7 +312,7 @@ class Signed(BitVector):
 
         if rhs == 0:
             return Signed[result_width]()
-        return Signed[result_width](int(lhs / rhs))
+        return Signed[result_width](Signed._wrap_int(int(lhs / rhs), result_width))
 
     @_intrinsic
     def __mod__(self, rhs: Signed) -> Signed:
